@@ -5,7 +5,9 @@
   `decrement_cached_iterative_query_stats`, after the `fix:` commit), the `Lru` model of the `lru`
   crate (`Model/Lru.lean`, shared with the stores of C04), `Inflight.cleanup`, and the release of
   callers in `Actor.afterRecv`.
-  The statistics' integer counters are proved equal to the aggregate over the cached lookups; the
+  The statistics' integer counters are proved equal to the aggregate over the cached lookups — for
+  one caching step (`cacheQuery_ok`), for one iteration of the whole node's loop (`step_statsOk`) and
+  for every reachable state of a node (`reachable_statsOk`); the
   two `f64` sums are updated by the same paired `+=` / `-=` on the same entries (they are compared
   with the code bit-for-bit, up to summation order, by the `node` correspondence stream).
 -/
@@ -395,5 +397,420 @@ theorem cleanup_drops_expired (s : Inflight) (hi : s.Inv) (now : Nat) (ht : s.Ti
     · subst hj0; simp only [Nat.add_zero]; omega
     · have := hs k (k + j) hk hj' (by omega)
       omega
+
+
+/-! ## The whole node: the invariant holds in every reachable state -/
+
+/-- statistics and lookup cache untouched -/
+def Same (c c' : Core) : Prop := c'.stats = c.stats ∧ c'.sstats = c.sstats ∧ c'.cache = c.cache
+
+theorem Same.refl (c : Core) : Same c c := ⟨rfl, rfl, rfl⟩
+theorem Same.trans {a b c : Core} (h1 : Same a b) (h2 : Same b c) : Same a c :=
+  ⟨h2.1.trans h1.1, h2.2.1.trans h1.2.1, h2.2.2.trans h1.2.2⟩
+
+theorem statsOk_same (c c' : Core) (h : StatsOk c) (hs : Same c c') : StatsOk c' := by
+  obtain ⟨s1, s2, s3⟩ := hs
+  exact ⟨by rw [s1, s3]; exact h.est, by rw [s1, s3]; exact h.resp, by rw [s1, s3]; exact h.sub,
+    by rw [s2, s3]; exact h.sest, by rw [s2, s3]; exact h.sresp, by rw [s2, s3]; exact h.ssub,
+    by rw [s1, s2]; exact h.noUnderflow, by rw [s3]; exact h.nodup, by rw [s3]; exact h.cap, by rw [s3]; exact h.bounded⟩
+
+/-- reading the cache promotes the entry (most recently used first): the same entries in another
+    order, so the counters still equal the aggregate -/
+theorem getCached_ok (c : Core) (h : StatsOk c) (target : Id) (now : Nat) :
+    StatsOk (getCachedClosestNodes c target now).1 := by
+  unfold getCachedClosestNodes
+  cases hg : c.cache.get target with
+  | mk cache found =>
+    cases found with
+    | none => exact h
+    | some e =>
+      simp only
+      unfold Lru.get at hg
+      split at hg
+      · rename_i p hp
+        injection hg with hc he
+        have hmem : p ∈ c.cache.items := List.mem_of_find?_eq_some hp
+        have hkey : p.1 = target := by
+          have := List.find?_some hp; simpa using this
+        have hitems : cache.items = p :: c.cache.items.filter (fun q => q.1 != target) := by rw [← hc]
+        have hcap : cache.cap = c.cache.cap := by rw [← hc]
+        have hsplit : ∀ w, agg w c.cache.items = agg w cache.items := by
+          intro w
+          rw [hitems, agg_cons]
+          exact agg_split w c.cache.items h.nodup target p.2 (by rw [← hkey]; exact hmem)
+        have hnd : cache.items.Pairwise (fun a b => a.1 ≠ b.1) := by
+          rw [hitems, List.pairwise_cons]
+          refine ⟨?_, h.nodup.sublist List.filter_sublist⟩
+          intro q hq
+          have := (List.mem_filter.1 hq).2
+          rw [hkey]
+          simpa using fun e => (by simpa using this : q.1 ≠ target) e.symm
+        have hlen : cache.items.length ≤ c.cache.items.length := by
+          rw [hitems]
+          have : (c.cache.items.filter (fun q => q.1 != target)).length < c.cache.items.length := by
+            apply List.length_filter_lt_length_iff_exists.2
+            exact ⟨p, hmem, by simp [hkey]⟩
+          simp only [List.length_cons]; omega
+        exact ⟨by simp only; rw [← hsplit]; exact h.est, by simp only; rw [← hsplit]; exact h.resp,
+          by simp only; rw [← hsplit]; exact h.sub, by simp only; rw [← hsplit]; exact h.sest,
+          by simp only; rw [← hsplit]; exact h.sresp, by simp only; rw [← hsplit]; exact h.ssub,
+          h.noUnderflow, hnd, by simp only; rw [hcap]; exact h.cap, by simp only; exact Nat.le_trans hlen h.bounded⟩
+      · cases hg
+
+
+theorem createIter_ok (c : Core) (h : StatsOk c) (k : GetKind) (t : Id) (extra : List Addr) (now : Nat) :
+    StatsOk (createIterativeQuery c k t extra now).1 := by
+  unfold createIterativeQuery
+  split
+  · exact h
+  · exact getCached_ok c h t now
+
+theorem startLookup_ok (a : Actor) (h : StatsOk a.core) (k : GetKind) (t : Id) (extra : List Addr) (now : Nat) :
+    StatsOk (a.startLookup k t extra now).core := by
+  have hc := createIter_ok a.core h k t extra now
+  unfold startLookup
+  split
+  · rename_i core q toVisit hm
+    rw [hm] at hc
+    simp only at hc ⊢
+    exact statsOk_same core _ hc ⟨rfl, rfl, rfl⟩
+  · rename_i core hm
+    rw [hm] at hc
+    exact hc
+
+theorem get_ok (a : Actor) (h : StatsOk a.core) (k : GetKind) (t : Id) (extra : List Addr) (now : Nat) :
+    StatsOk (a.get k t extra now).1.core := by
+  unfold Actor.get
+  split
+  · exact h
+  · exact startLookup_ok a h k t extra now
+
+theorem populate_ok (a : Actor) (h : StatsOk a.core) (now : Nat) : StatsOk (a.populate now).core := by
+  unfold populate
+  split
+  · exact h
+  · exact get_ok a h _ _ _ now
+
+theorem sendPuts_same (spec : PutSpec) (sent : List ((Addr × Bytes) × Nat)) : ∀ a : Actor, Same a.core (sendPuts a spec sent).core := by
+  unfold sendPuts
+  induction sent with
+  | nil => intro a; exact Same.refl _
+  | cons x xs ih =>
+    intro a
+    simp only [List.foldl_cons]
+    exact Same.trans ⟨rfl, rfl, rfl⟩ (ih _)
+
+theorem startPut_same (a : Actor) (e : PutEntry) (closest : List Node) (now : Nat) :
+    Same a.core (startPut a e closest now).1.core := by
+  unfold startPut
+  exact sendPuts_same _ _ _
+
+theorem startPuts_same (a : Actor) (now : Nat) (di : List (Id × List Node)) (dp : List (Id × Option PutErr)) :
+    Same a.core (startPuts a now di dp).1.core := by
+  unfold startPuts
+  have : ∀ (l : List (Id × List Node)) (acc : Actor × List (Id × Option PutErr)),
+      Same acc.1.core (l.foldl (startPutOne now) acc).1.core := by
+    intro l
+    induction l with
+    | nil => intro acc; exact Same.refl _
+    | cons d ds ih =>
+      intro acc
+      simp only [List.foldl_cons]
+      refine Same.trans ?_ (ih _)
+      unfold startPutOne
+      split
+      · rename_i e _
+        have hs := startPut_same acc.1 e d.2 now
+        split
+        · exact Same.trans hs ⟨rfl, rfl, rfl⟩
+        · exact Same.trans hs ⟨rfl, rfl, rfl⟩
+      · exact Same.refl _
+  exact this di (a, dp)
+
+theorem checkConcurrency_same (c : Core) (spec : PutSpec) : Same c (checkConcurrency c spec).1 := by
+  cases spec with
+  | putMutable target v k seq sig salt cas =>
+    simp only [checkConcurrency]
+    split
+    · split
+      · split
+        · exact Same.refl _
+        · split
+          · exact Same.refl _
+          · split
+            · split
+              · exact ⟨rfl, rfl, rfl⟩
+              · exact Same.refl _
+            · exact Same.refl _
+      · exact Same.refl _
+    · exact Same.refl _
+  | putImmutable _ _ => exact Same.refl _
+  | announcePeer _ _ _ => exact Same.refl _
+  | announceSignedPeer _ _ _ _ => exact Same.refl _
+
+theorem put_ok (a : Actor) (h : StatsOk a.core) (spec : PutSpec) (extra : List Node) (now : Nat) :
+    StatsOk (a.put spec extra now).1.core := by
+  have h0 := statsOk_same _ _ h (checkConcurrency_same a.core spec)
+  unfold Actor.put
+  split
+  · exact h0
+  · generalize hbe : ({ a with core := (checkConcurrency a.core spec).1 } : Actor) = b
+    have hb : StatsOk b.core := by rw [← hbe]; exact h0
+    unfold putAfterCheck
+    have h1 := getCached_ok b.core hb spec.target now
+    split
+    · rename_i closest _
+      unfold putFromCache
+      generalize hce : ({ b with core := (getCachedClosestNodes b.core spec.target now).1 } : Actor) = c
+      have hc : StatsOk c.core := by rw [← hce]; exact h1
+      have h2 := statsOk_same _ _ hc (startPut_same c (newPutEntry spec extra) closest now)
+      split
+      · exact h2
+      · exact statsOk_same _ _ h2 ⟨rfl, rfl, rfl⟩
+    · generalize hce : ({ b with core := (getCachedClosestNodes b.core spec.target now).1 } : Actor) = c
+      have hc : StatsOk c.core := by rw [← hce]; exact h1
+      exact statsOk_same _ _ (get_ok c hc _ _ _ now) ⟨rfl, rfl, rfl⟩
+
+theorem pickup_ok (a : Actor) (h : StatsOk a.core) (env : Env) (msg : Option ApiMsg) :
+    StatsOk (a.pickup env msg).core := by
+  unfold pickup
+  split
+  · exact h
+  · exact h
+  · exact h
+  · rename_i c spec extra
+    unfold pickupPut
+    have := put_ok a h spec extra env.now
+    split
+    · exact statsOk_same _ _ this ⟨rfl, rfl, rfl⟩
+    · exact statsOk_same _ _ this ⟨rfl, rfl, rfl⟩
+  · rename_i kind target sender
+    unfold pickupGet
+    exact statsOk_same _ _ (get_ok a h kind target [] env.now) ⟨rfl, rfl, rfl⟩
+
+
+theorem addResponder_same (c : Core) (now : Nat) (src : Addr) (m : Message) : Same c (addResponder c now src m) := by
+  unfold addResponder
+  split
+  · split <;> exact ⟨rfl, rfl, rfl⟩
+  · exact Same.refl _
+
+theorem handleResponse_same (c : Core) (env : Env) (src : Addr) (m : Message) : Same c (handleResponse c env src m).1 := by
+  unfold handleResponse
+  split
+  · exact Same.refl _
+  · split
+    · exact ⟨rfl, rfl, rfl⟩
+    · split
+      · split
+        · exact Same.trans ⟨rfl, rfl, rfl⟩ (addResponder_same _ _ _ _)
+        · exact ⟨rfl, rfl, rfl⟩
+      · split
+        · exact addResponder_same _ _ _ _
+        · exact Same.refl _
+
+theorem handleRequest_same (c : Core) (env : Env) (src : Addr) (ro : Bool) (version : Option Bytes) (req : Request) :
+    Same c (handleRequest c env src ro version req).1 := by
+  have h1 : Same c (maybeAddNodeFromRequest c src version ro req env.now) := by
+    unfold maybeAddNodeFromRequest
+    split
+    · split
+      · unfold addRequester
+        split
+        · split <;> exact ⟨rfl, rfl, rfl⟩
+        · split <;> exact ⟨rfl, rfl, rfl⟩
+      · exact Same.refl _
+    · exact Same.refl _
+  have h2 : ∀ c' : Core, Same c' (verifySelfPing c' src req env.now).1 := by
+    intro c'
+    unfold verifySelfPing
+    split
+    · split
+      · split <;> exact ⟨rfl, rfl, rfl⟩
+      · exact Same.refl _
+    · exact Same.refl _
+  unfold handleRequest serveRequest
+  split
+  · exact Same.trans h1 (Same.trans (h2 _) ⟨rfl, rfl, rfl⟩)
+  · exact Same.trans h1 (h2 _)
+
+theorem handleIncoming_ok (a : Actor) (h : StatsOk a.core) (env : Env) (handed : Option (Message × Addr)) :
+    StatsOk (a.handleIncoming env handed).1.core := by
+  unfold handleIncoming
+  cases handed with
+  | none => exact h
+  | some p =>
+    obtain ⟨m, src⟩ := p
+    simp only
+    cases hm : m.mtype with
+    | request req =>
+      simp only
+      have hs := statsOk_same _ _ h (handleRequest_same a.core env src m.readOnly m.version req)
+      have hcore : ∀ (b : Actor) (r : Option Reply), (b.sendReply src m.tid r).core = b.core := by
+        intro b r; unfold sendReply; split <;> rfl
+      unfold handleIncomingRequest
+      split
+      · apply populate_ok
+        rw [hcore]; exact hs
+      · rw [hcore]; exact hs
+    | response r => exact statsOk_same _ _ h (handleResponse_same a.core env src m)
+    | error e => exact statsOk_same _ _ h (handleResponse_same a.core env src m)
+
+theorem preDone_ok (a : Actor) (h : StatsOk a.core) (env : Env) (dgram : Option (Message × Addr)) :
+    StatsOk (a.preDone env dgram).core := by
+  unfold preDone
+  have h1 : (a.recvPhase env.now dgram).1.core = a.core := by
+    unfold recvPhase
+    cases dgram with
+    | none => rfl
+    | some p => rfl
+  have h2 := handleIncoming_ok (a.recvPhase env.now dgram).1 (by rw [h1]; exact h) env (a.recvPhase env.now dgram).2
+  have h3 : ∀ (b : Actor) (v : Option (Id × Value)), (b.forwardValue v).core = b.core := by
+    intro b v
+    unfold forwardValue
+    split
+    · split <;> rfl
+    · rfl
+  rw [h3]; exact h2
+
+theorem visitClosestAll_same (a : Actor) (now : Nat) : Same a.core (a.visitClosestAll now).core := by
+  unfold visitClosestAll
+  have : ∀ (l : List (Id × IterQuery)) (b : Actor),
+      Same b.core (l.foldl (fun (a : Actor) (p : Id × IterQuery) => a.visitClosest p.1 now) b).core := by
+    intro l
+    induction l with
+    | nil => intro b; exact Same.refl _
+    | cons p ps ih =>
+      intro b
+      simp only [List.foldl_cons]
+      refine Same.trans ?_ (ih _)
+      unfold visitClosest
+      cases hg : alGet b.core.iter p.1 with
+      | none => exact Same.refl _
+      | some q =>
+        simp only
+        obtain ⟨hc, _⟩ := visitAll_core b q q.closestCandidates now
+        rw [hc]; exact ⟨rfl, rfl, rfl⟩
+  exact this _ a
+
+theorem cleanupDone_ok (c : Core) (h : StatsOk c) (di : List (Id × List Node)) (dp : List (Id × Option PutErr)) :
+    StatsOk (cleanupDone c di dp).1 := by
+  unfold cleanupDone
+  have hone : ∀ (acc : Core × Option Addr) (d : Id × List Node), StatsOk acc.1 → StatsOk (cleanupOneLookup acc d).1 := by
+    intro acc d ha
+    unfold cleanupOneLookup
+    split
+    · rename_i q _
+      have h0 : StatsOk { acc.1 with iter := alRemove acc.1.iter d.1 } := statsOk_same _ _ ha ⟨rfl, rfl, rfl⟩
+      have h1 := cacheQuery_ok _ h0 q d.2
+      have hv : Same (cacheQuery { acc.1 with iter := alRemove acc.1.iter d.1 } q d.2)
+          (updateAddressVotes (cacheQuery { acc.1 with iter := alRemove acc.1.iter d.1 } q d.2) q).1 := by
+        unfold updateAddressVotes
+        split
+        · split <;> exact ⟨rfl, rfl, rfl⟩
+        · exact Same.refl _
+      have h2 := statsOk_same _ _ h1 hv
+      split <;> exact h2
+    · exact ha
+  have h1 : ∀ (l : List (Id × List Node)) (acc : Core × Option Addr), StatsOk acc.1 → StatsOk (l.foldl cleanupOneLookup acc).1 := by
+    intro l
+    induction l with
+    | nil => intro acc ha; exact ha
+    | cons d ds ih => intro acc ha; simp only [List.foldl_cons]; exact ih _ (hone acc d ha)
+  have h2 : ∀ (l : List (Id × Option PutErr)) (c' : Core), StatsOk c' → StatsOk (l.foldl removePut c') := by
+    intro l
+    induction l with
+    | nil => intro c' hc; exact hc
+    | cons d ds ih => intro c' hc; simp only [List.foldl_cons]; exact ih _ (statsOk_same _ _ hc ⟨rfl, rfl, rfl⟩)
+  exact h2 dp _ (h1 di (c, none) h)
+
+theorem afterRecv_ok (a : Actor) (h : StatsOk a.core) (env : Env) (dgram : Option (Message × Addr)) :
+    StatsOk (a.afterRecv env dgram).core := by
+  unfold afterRecv finishTick
+  have h3 := preDone_ok a h env dgram
+  generalize a.preDone env dgram = a3 at h3
+  have h4 := statsOk_same _ _ h3 (visitClosestAll_same a3 env.now)
+  generalize a3.checkDonePuts env.now = dp0
+  generalize a3.visitClosestAll env.now = a4 at h4
+  generalize a4.doneLookups env.now = di
+  have h5 := statsOk_same _ _ h4 (startPuts_same a4 env.now di dp0)
+  generalize startPuts a4 env.now di dp0 = sp at h5
+  have h6 := cleanupDone_ok sp.1.core h5 di sp.2
+  generalize cleanupDone sp.1.core di sp.2 = cd at h6
+  have hping : ∀ (b : Actor) (to : Option Addr), (b.pingOpt to env.now).core = b.core := by
+    intro b to; unfold pingOpt; split <;> rfl
+  have hrg : ∀ (b : Actor) (l : List (Id × List Node)), (b.releaseGetCallers l).core = b.core := by
+    intro b l
+    unfold releaseGetCallers
+    induction l generalizing b with
+    | nil => rfl
+    | cons d ds ih =>
+      simp only [List.foldl_cons]
+      rw [ih]
+      unfold releaseGetOne
+      split <;> rfl
+  have hrp : ∀ (b : Actor) (l : List (Id × Option PutErr)), (b.releasePutCallers l).core = b.core := by
+    intro b l
+    unfold releasePutCallers
+    induction l generalizing b with
+    | nil => rfl
+    | cons d ds ih =>
+      simp only [List.foldl_cons]
+      rw [ih]
+      unfold releasePutOne
+      split <;> rfl
+  rw [hrp, hrg, hping]
+  exact h6
+
+theorem maintenance_ok (a : Actor) (h : StatsOk a.core) (now : Nat) : StatsOk (a.maintenance now).core := by
+  unfold maintenance
+  have h1 : StatsOk (a.bootstrapIfEmpty now).core := by
+    unfold bootstrapIfEmpty; split
+    · exact populate_ok a h now
+    · exact h
+  have h2 : StatsOk ((a.bootstrapIfEmpty now).refreshTable now).core := by
+    generalize a.bootstrapIfEmpty now = b at h1
+    unfold refreshTable
+    split
+    · apply populate_ok
+      unfold adaptiveSwitch
+      split
+      · exact statsOk_same _ _ h1 ⟨rfl, rfl, rfl⟩
+      · exact statsOk_same _ _ h1 ⟨rfl, rfl, rfl⟩
+    · exact h1
+  generalize (a.bootstrapIfEmpty now).refreshTable now = b at h2
+  unfold pingTable
+  split
+  · have hfold : ∀ (l : List Addr) (x : Actor), (l.foldl (fun a addr => a.ping addr now) x).core = x.core := by
+      intro l
+      induction l with
+      | nil => intro x; rfl
+      | cons y ys ih => intro x; simp only [List.foldl_cons]; rw [ih]; rfl
+    rw [hfold]
+    exact statsOk_same _ _ h2 (by simp [pingRound, Same])
+  · exact h2
+
+/-- **C20, one iteration of the loop.** The integer statistics equal the aggregate over the cached
+    lookups, none has ever underflowed, the cache holds one entry per target and at most 1000. -/
+theorem step_statsOk (a : Actor) (h : StatsOk a.core) (env : Env) (dgram : Option (Message × Addr)) (msg : Option ApiMsg) :
+    StatsOk (a.step env dgram msg).core := by
+  unfold Actor.step
+  exact maintenance_ok _ (pickup_ok _ (afterRecv_ok a h env dgram) env msg) env.now
+
+/-- **C20, every reachable state of a node.** -/
+theorem reachable_statsOk (cfg : NodeConfig) (seed : UInt64) (t0 : Nat) (ins : List StepIn) :
+    StatsOk (runSteps (Actor.create cfg seed t0) ins).core := by
+  have h0 : StatsOk (Actor.create cfg seed t0).core := by
+    unfold Actor.create
+    split <;>
+    · simp only
+      apply maintenance_ok
+      exact statsOk_init _ rfl ⟨rfl, rfl, rfl, rfl⟩ ⟨rfl, rfl, rfl, rfl⟩
+  unfold runSteps
+  generalize Actor.create cfg seed t0 = a at h0
+  induction ins generalizing a with
+  | nil => exact h0
+  | cons i is ih => simp only [List.foldl_cons]; exact ih _ (step_statsOk a h0 i.env i.dgram i.msg)
+
 
 end Mainline.Props.C20
